@@ -170,6 +170,7 @@ DEFAULT_KNOBS = dict(
     rowcol=True, unbounded=True, text=True, index=True, percent=True,
     abs_refs=True, sheet_refs=True, lead_consts=3,
     iferr=True, rowcol_noarg=True, union=True, sumproduct=True, stats=True,
+    lookup=True, reserve_name=True,
 )
 
 
@@ -178,8 +179,9 @@ def draw_knobs(rnd, **override):
     k = dict(DEFAULT_KNOBS)
     for feat in ('ranges', 'names', 'cse', 'intersection', 'multicolon', 'rowcol',
                  'unbounded', 'text', 'index', 'percent', 'abs_refs', 'sheet_refs',
-                 'iferr', 'rowcol_noarg', 'union', 'sumproduct', 'stats'):
+                 'iferr', 'rowcol_noarg', 'union', 'sumproduct', 'stats', 'lookup'):
         k[feat] = rnd.random() < 0.7
+    k['reserve_name'] = rnd.random() < 0.3
     k['ranges'] = rnd.random() < 0.85
     k['p_const'] = rnd.choice((0.2, 0.35, 0.5))
     k.update(override)
@@ -304,6 +306,15 @@ class SpecGen:
                                         for cc in (1, 2) if rr != r]
                 self.declared_extra += [mk(ds, r, cc) for cc in range(3, w + 1)]
                 return txt, inter
+            if pick < 0.3 and w >= 2 and k.get('lookup'):
+                # a band of two whole columns / rows (a lookup table "to the end of the sheet")
+                if rnd.random() < 0.6 or rows < 2:
+                    txt = f'{quote_sheet(ds)}!A:B'
+                    cells = [mk(ds, r, c) for r in range(1, rows + 1) for c in (1, 2)]
+                else:
+                    txt = f'{quote_sheet(ds)}!1:2'
+                    cells = [mk(ds, r, c) for r in (1, 2) for c in range(1, w + 1)]
+                return txt, [a for a in cells if a in self.by_addr]
             if pick < 0.6:
                 c = rnd.randint(1, w)
                 col = rc_coord(1, c)[:-1]
@@ -397,6 +408,24 @@ class SpecGen:
             return self.atom()
         txt, prec = ro
         fn = rnd.choice(AGGS)
+        if self.k.get('lookup') and rnd.random() < 0.14 and ' ' not in txt and prec:
+            # functions that care about the shape of the range and the types in it; the value
+            # looked up is, more often than not, one the table holds
+            if rnd.random() < 0.6:
+                key, pk, dk = self.ref_text(rnd.choice(prec)), [], []     # (a cell of the table)
+            else:
+                key, pk, dk = self.atom()
+            form = rnd.choice(('VLOOKUP', 'VLOOKUP', 'HLOOKUP', 'MATCH', 'INDEXMATCH', 'INDEX2'))
+            exact = rnd.choice(('FALSE', 'FALSE', '0', 'TRUE'))
+            if form == 'VLOOKUP':
+                return f'VLOOKUP({key},{txt},{rnd.choice((1, 1, 2))},{exact})', prec + pk, dk
+            if form == 'HLOOKUP':
+                return f'HLOOKUP({key},{txt},{rnd.choice((1, 1, 2))},{exact})', prec + pk, dk
+            if form == 'MATCH':
+                return f'MATCH({key},{txt},{rnd.choice((0, 0, 1))})', prec + pk, dk
+            if form == 'INDEXMATCH':
+                return f'INDEX({txt},MATCH({key},{txt},0))', prec + pk, dk
+            return f'INDEX({txt},{rnd.choice((1, 1, 2))},{rnd.choice((1, 1, 2))})', prec, []
         if self.k.get('sumproduct') and rnd.random() < 0.08 and ' ' not in txt:
             return f'SUMPRODUCT({txt})', prec, []
         if self.k.get('stats') and rnd.random() < 0.08 and ' ' not in txt:
@@ -619,6 +648,12 @@ class SpecGen:
                         rnd.random() < k.get('p_cse', 0.12)):
                     if self.add_cse(sheet, n_cse):
                         n_cse += 1
+        if k.get('reserve_name') and k['names']:
+            # a name for an input area reserved well beyond the used part of its sheet; no
+            # formula reads it, it merely sits in the workbook's table of names
+            sh = rnd.choice(sheets)
+            col = rc_coord(1, self.width.get(sh, 3) + rnd.choice((0, 1, 4)))[:-1]
+            self.names['reserve_1'] = f'{sh}!${col}$1:${col}${rnd.choice((30, 40, 200))}'
         spec = {
             'sheets': sheets,
             'active': rnd.choice(formula_sheets),
@@ -837,6 +872,70 @@ def add_big_range_gadget(rnd, spec):
     spec['cells'].append({'a': both, 'f': '=A50+B50', 'p': [tot, solo], 'd': []})
     spec.setdefault('gadget', []).extend([tot, solo, both, blank])
     spec['big_range'] = f'{big}!A1:A{n}'
+
+
+def add_lookup_gadget(rnd, spec):
+    """a small price list that nothing writes to, looked up through whole-column and bounded
+    references with a key that is an ordinary input; next to it a second list whose keys are
+    equal to the first one's in Python but not in Excel (TRUE next to 1).  Sheet List, key and
+    formulas in row 55 of the first formula sheet."""
+    sheet = next(s_ for s_ in spec['sheets'] if s_ != spec.get('data_sheet'))
+    lst = 'List'
+    if lst in spec['sheets']:
+        return
+    spec['sheets'].append(lst)
+    n = rnd.choice((3, 4))
+    keys = rnd.sample((1, 2, 3, 5, 8, 13), n)
+    if rnd.random() < 0.6:
+        keys[0] = 1
+    twin = [True if k_ == 1 else k_ for k_ in keys]
+    cells = spec['cells']
+    pinned = spec.setdefault('pinned', [])
+    ka, va, kd, vd = [], [], [], []
+    for i in range(n):
+        for col, v, acc in ((1, keys[i], ka), (2, round(rnd.uniform(1, 9), 1), va),
+                            (4, twin[i], kd), (5, round(rnd.uniform(10, 90), 1), vd)):
+            a = mk(lst, i + 1, col)
+            cells.append({'a': a, 'v': v})
+            pinned.append(a)
+            acc.append(a)
+    # a third list with other keys (whatever remembers "the table searched last" forgets the
+    # look-alike ones in between)
+    kg = []
+    for i, v in enumerate(rnd.sample((4, 6, 7, 9, 'k', 21), n)):
+        a = mk(lst, i + 1, 7)
+        cells.append({'a': a, 'v': v})
+        pinned.append(a)
+        kg.append(a)
+    q = quote_sheet(lst)
+    key, key2 = mk(sheet, 55, 1), mk(sheet, 55, 2)
+    pool = list(keys) + [True, 999]
+    cells.append({'a': key, 'v': rnd.choice(keys), 'w': pool})
+    cells.append({'a': key2, 'v': rnd.choice((1, True)), 'w': [1, True, keys[-1]]})
+    forms = [
+        (f'=VLOOKUP(A55,{q}!A:B,2,FALSE)', [key] + ka + va),
+        (f'=INDEX({q}!B:B,MATCH(A55,{q}!A:A,0))*10', [key] + ka + va),
+        (f'=SUM({q}!B:B)+A55', [key] + va),
+        (f'=VLOOKUP(A55,{q}!A1:B{n},2,FALSE)', [key] + ka + va),
+        (f'=MATCH(B55,{q}!A1:A{n},0)', [key2] + ka),
+        (f'=MATCH(B55,{q}!D1:D{n},0)', [key2] + kd),
+        (f'=VLOOKUP(B55,{q}!D1:E{n},2,FALSE)', [key2] + kd + vd),
+        (f'=VLOOKUP(B55,{q}!A1:B{n},2,FALSE)', [key2] + ka + va),
+        (f'=MATCH(A55,{q}!G1:G{n},0)', [key] + kg),
+        (f'=IFERROR(MATCH(B55,{q}!G:G,0),-1)+B55', [key2] + kg),
+    ]
+    # one pair of look-alike lookups always comes first (the same key in both lists)
+    pair = forms[4:6] if rnd.random() < 0.5 else forms[6:8]
+    rest = [x for x in forms[:8] if x not in pair]
+    rnd.shuffle(rest)
+    forms = pair + [forms[8 + rnd.randrange(2)]] + rest
+    out = []
+    for i, (f, p) in enumerate(forms[:rnd.choice((4, 6, 8))]):
+        a = mk(sheet, 55, 3 + i)
+        cells.append({'a': a, 'f': f, 'p': p, 'd': []})
+        out.append(a)
+    spec.setdefault('gadget', []).extend(out)
+    spec['lookup_gadget'] = out
 
 
 def add_table_gadget(rnd, spec):
